@@ -183,3 +183,94 @@ class Json(Contract):
 
 
 CONTRACTS = [Raise(), GetBodyString(), Json()]
+
+
+class Post(Contract):
+    """BodyMixin.POST: whatever goes wrong while reading a form is answered through the error map"""
+    props = ('C12',)
+    file = 'ombott/request_pkg/body_mixin.py'
+    qualname = 'BodyMixin.POST'
+    assumptions = ('callee contracts: json / _get_body_string / body raise only mapped errors (proved above; body: _body, bounded wiring); '
+                   'parse_qsl is total (proved in contracts/C18.py); _collect_multipart raises only RequestErrors (FieldStorage contracts) '
+                   '- provided the stored markup error is a RequestError, which holds for every exception the markup parser raises '
+                   'on purpose (BaseMarkupException family; an internal assertion of the parser would be a 500: bounded)',)
+    expected_labels = ('raise.only_mapped_errors', 'multipart.request_errors_go_through_the_error_map', 'json.only_objects_become_form_data')
+
+    def pre(self, X):
+        g = X.globals
+        self.ReqErr, self.ParseErr = g['RequestError'], g['BodyParsingError']
+        self.kind = ('multipart', 'json', 'urlencoded')[X.choose(3, 'content type')]
+        ct = {'multipart': 'multipart/form-data; boundary=x', 'json': 'application/json', 'urlencoded': 'application/x-www-form-urlencoded'}[self.kind]
+        self.json_kind = None
+        c = self
+
+        def factory(X, args, kwargs):
+            return VObj('Forms', {})
+
+        def json_get(X):
+            k = X.choose(4, 'json: mapped error | None | dict | other value')
+            c.json_kind = k
+            if k == 0:
+                raise_mapped(X)
+            if k == 1:
+                return NONE
+            if k == 2:
+                return VObj('PyDict', {}, pyclass=dict)
+            o = VOpaque(X.fresh(PyObj, 'json_value'), 'other')      # a list, a number, a string ...: not None, not a dict
+            X.assume(z3.Not(X.driver.uf('is_none', PyObj, z3.BoolSort())(o.t)))
+            X.assume(z3.Not(X.driver.uf('isinstance', PyObj, z3.StringSort(), z3.BoolSort())(o.t, z3.StringVal('dict'))))
+            return o
+
+        def get_body_string(X, args, kwargs):
+            if X.choose(2, 'body string within the threshold?') == 0:
+                raise_mapped(X)
+            return VBytes(X.fresh(BytesSort, 'body'))
+
+        def collect(X, args, kwargs):
+            k = X.choose(3, 'collect: ok | BodyParsingError | BodySizeError')
+            if k == 1:
+                X.raise_(c.ParseErr, 'collect')
+            if k == 2:
+                X.raise_(g['BodySizeError'], 'collect')
+            return NONE
+
+        def _raise(X, args, kwargs):
+            e, cls = args[1], args[2]
+            X.prove('raise.through_the_error_map_with_fallback_class',
+                    z3.BoolVal(isinstance(e, VExc) and e.pyclass is not None and issubclass(e.pyclass, c.ReqErr)
+                               and isinstance(cls, VClass) and cls.pyclass is c.ReqErr))
+            c.raised_via_map = True
+            raise_mapped(X)
+        self.raised_via_map = False
+        self.stubs = {'Req._forms_factory': factory, 'Req._get_body_string': get_body_string, 'Req._collect_multipart': collect,
+                      'Req._raise': _raise, 'touni': lambda X, a, k: X.fresh_str('text'), 'parse_qsl': lambda X, a, k: NONE,
+                      'Forms.update': lambda X, a, k: NONE}
+        self.json_get = json_get
+        me = VObj('Req', {'environ': VObj('Environ', {}), 'content_type': VStr(ct), 'body': VObj('Body', {})})
+        return {'self': me}
+
+    def getattr_hook(self, X, obj, attr):
+        if isinstance(obj, VObj) and obj.cls == 'Req' and attr == 'json':
+            return self.json_get(X)
+        if isinstance(obj, VObj) and obj.cls == 'Forms' and attr == '__setitem__':
+            return VFunc(lambda X2, a, k: NONE, 'setitem')
+        return None
+
+    def setitem_hook(self, X, obj, key, val):
+        return isinstance(obj, VObj) and obj.cls == 'Environ'
+
+    def isinstance_hook(self, X, v, classes):
+        return None
+
+    def post(self, X, ret):
+        if self.kind == 'json':
+            X.prove('json.only_objects_become_form_data', z3.BoolVal(self.json_kind in (1, 2)))
+        X.prove('post.returns_the_form_dict', z3.BoolVal(isinstance(ret, VObj) and ret.cls == 'Forms'))
+
+    def post_raise(self, X, exc):
+        X.prove('raise.only_mapped_errors', z3.BoolVal(exc.tag == 'mapped'))
+        if self.kind == 'multipart':
+            X.prove('multipart.request_errors_go_through_the_error_map', z3.BoolVal(self.raised_via_map))
+
+
+CONTRACTS.append(Post())
